@@ -29,7 +29,7 @@ COMPONENTS = {
     "real": ["canopen.emcy (EmcyConsumer, EmcyProducer, EmcyError, EMCY_STRUCT)", "RemoteNode/LocalNode wiring", "canopen.Network"],
     "stub": ["CAN backend (SimBus)", "can.Notifier", "threading.Condition and time inside canopen.emcy (virtual clock)"],
 }
-PROBES = ["reset-frame", "reset-frame-xxFF", "producer-roundtrip", "callback", "consumer-reset", "wait-returned", "wait-none", "wait-filtered", "wait-filter-zero", "waiters-served", "other-traffic"]
+PROBES = ["reset-frame", "reset-frame-xxFF", "producer-roundtrip", "callback", "consumer-reset", "wait-returned", "wait-none", "wait-filtered", "wait-filter-zero", "waiters-served", "other-traffic", "callback-raises-once"]
 
 CLASSES = ((0x0000, 0xFF00, "Error Reset / No Error"), (0x1000, 0xFF00, "Generic Error"), (0x2000, 0xF000, "Current"),
            (0x3000, 0xF000, "Voltage"), (0x4000, 0xF000, "Temperature"), (0x5000, 0xFF00, "Device Hardware"),
@@ -77,6 +77,8 @@ class W:
         self.active = []
         self.cbs = []       # [list of received entries] per registered callback
         self.last_ts = None
+        self.raiser = False
+        self.raised_at = None       # index (in log_all) of the frame during whose dispatch a callback raised
         self.ch.monitors.append(self._mon)
 
     def _mon(self, fr):
@@ -104,7 +106,15 @@ def _compare(ctx, w, what):
         exp = w.log[len(w.log) - len(seen[1]):] if False else None
     for k, (start, seen) in enumerate(w.cbs):
         exp = w.log_all[start:]
-        if [_entry_tuple(e) for e in seen] != exp:
+        got_cb = [_entry_tuple(e) for e in seen]
+        ra = getattr(w, "raised_at", None)
+        if ra is not None and ra >= start and got_cb != exp:
+            # the frame during whose dispatch a callback raised: whether the callbacks behind the failing one still saw
+            # that frame is left open ("either"); all other frames are judged
+            exp2 = [x for i, x in enumerate(w.log_all) if i >= start and i != ra]
+            if got_cb == exp2:
+                continue
+        if got_cb != exp:
             ctx.violation("C16/callback-invocations", "%s: callback %d saw %d entries %r, frames since its registration: %d" % (
                 what, k, len(seen), [hex(e.code) for e in seen][-5:], len(exp)))
 
@@ -436,7 +446,19 @@ def scenario(ctx):
             elif op == "callback":
                 if len(w.cbs) < 4:
                     seen = []
-                    w.r.emcy.add_callback(seen.append)
+                    if ctx.choice(3, "raising") == 0 and not w.raiser:
+                        # an application callback with a bug of its own: it raises ONCE, on the first frame it sees (the receive
+                        # path logs that).  For that one frame the callbacks after it are not judged; every later frame is
+                        def cb(entry, seen=seen):
+                            seen.append(entry)
+                            if len(seen) == 1:
+                                w.raised_at = len(w.log_all)
+                                raise ValueError("application callback failed (injected)")
+                        w.r.emcy.add_callback(cb)
+                        w.raiser = True
+                        ctx.probe("callback-raises-once")
+                    else:
+                        w.r.emcy.add_callback(seen.append)
                     w.cbs.append((len(w.log_all), seen))
                     ctx.probe("callback")
             elif op == "reset":
